@@ -8,7 +8,9 @@ executed; the first host of the scripted plan answers EXECUTE with UNPREPARED.  
 with {same id, a different id, an error, connection reset/close, silence}; the re-sent EXECUTE with rows / void /
 errors / UNPREPARED again.  Keyspace scenarios: none, session keyspace, session keyspace changed between prepare and
 execute (ids no longer match), keyspace passed to session.prepare (DSE v2), PreparedStatement.keyspace set on a
-protocol that does not carry it (the "keyspace no longer matches" branch).
+protocol that does not carry it (the "keyspace no longer matches" branch).  The statement object executed is the one
+the cluster's weak statement cache holds, or the first of two objects prepared for the same query after the later one was
+dropped (the cache entry goes with it), or one prepared through another Cluster of the same world.
 
 Oracle over the node-side trace (every EXECUTE of the statement id / PREPARE of the statement text that reached any
 node, in arrival order) and the client outcome: equal to the trace of a reference walk - PREPARE on the same host with
@@ -147,13 +149,24 @@ def run_history(seed):
     pol = C.make_oracle_retry_policy(script=[])          # every consultation: RETHROW
     errgen = C.ErrGen(rng)
     viol, infos = [], []
+    # which PreparedStatement object is executed: the one the cluster's (weak) statement cache holds; the FIRST of two objects prepared
+    # for the same query after the second was dropped (the cache entry goes with it); or one prepared through another Cluster object
+    psmode = rng.choices(['cached', 'first-of-two-later-dropped', 'other-cluster'], [6, 3, 1])[0]
     with env:
+        session2 = None
+        if psmode == 'other-cluster':
+            cluster2 = env.cluster(protocol_version=proto, reconnection_policy=ConstantReconnectionPolicy(5000.0),
+                                   execution_profiles={EXEC_PROFILE_DEFAULT: ExecutionProfile(load_balancing_policy=C.make_fixed_plan_policy())})
+            session2 = cluster2.connect()
+            env.world.settle(advance=False)
         cluster = env.cluster(protocol_version=proto, reconnection_policy=ConstantReconnectionPolicy(5000.0),
                               execution_profiles={EXEC_PROFILE_DEFAULT: ExecutionProfile(load_balancing_policy=lbp, retry_policy=pol)})
         session = C.connect_deterministically(env, cluster, ch)
         rec = Recorder(env.world)
         # ---- keyspace scenario
-        if carries_ks:
+        if psmode == 'other-cluster':
+            ksmode = rng.choice(['none', 'param']) if carries_ks else 'none'      # the other session's connections stay without keyspace
+        elif carries_ks:
             ksmode = rng.choice(['none', 'session', 'changed', 'param', 'param+session', 'param+changed'])
         else:
             ksmode = rng.choice(['none', 'none', 'session', 'changed', 'attr-mismatch', 'attr-mismatch-session', 'attr-match'])
@@ -163,8 +176,14 @@ def run_history(seed):
             session.set_keyspace('ks1')
             env.world.settle(advance=False)
         kw = {'keyspace': 'ksA'} if ksmode.startswith('param') else {}
-        ps = session.prepare(text, **kw)
+        ps = (session2 or session).prepare(text, **kw)
         env.world.settle(advance=False)
+        if psmode == 'first-of-two-later-dropped':
+            later = session.prepare(text, **kw)
+            env.world.settle(advance=False)
+            del later            # reference counting frees it; the weak cache entry registered last for this id goes with it
+        with env.world.inspect():
+            in_cache = cluster._prepared_statements.get(ps.query_id) is ps
         if ksmode in ('changed', 'param+changed', 'attr-mismatch-session'):
             session.set_keyspace('ks2')
             env.world.settle(advance=False)
@@ -228,7 +247,8 @@ def run_history(seed):
                 elif q['op'] == 'PREPARE':
                     obs.append(('PREPARE-OTHER-TEXT', q['_node'], None, q.get('keyspace'), q.get('query')))
             outs = rec.outcomes(uid)
-            info = dict(seed=seed, proto=proto, nodes=n, plan=order, keyspace_scenario=ksmode, prepare_answer=reaction,
+            info = dict(seed=seed, proto=proto, nodes=n, plan=order, keyspace_scenario=ksmode, prepare_answer=reaction, statement_object=psmode,
+                        statement_object_in_cluster_cache=in_cache,
                         execute_answers=[a if isinstance(a, str) else (a[0], a[1]['kind'] if a[0] == 'err' else a[1]) for a in answers],
                         node_trace=[(o[0], o[1], o[3]) for o in obs], expected_trace=frames, expected_outcome=outcome[:2] if outcome[0] != 'rethrow' else ('rethrow', outcome[1]['kind']),
                         outcomes=[(o[0], repr(o[3])[:200]) for o in outs], frames_before_time_passed=frames_before_time,
@@ -243,6 +263,9 @@ def run_history(seed):
         env.world.preempt = False
         cluster.shutdown()
         env.world.settle()
+        if session2 is not None:
+            cluster2.shutdown()
+            env.world.settle()
     return viol, harness, infos
 
 
@@ -526,7 +549,12 @@ def run(ctx):
         ctx.count("histories")
         for q in infos:
             rel = tuple(q['plan'])
-            ctx.case(repr((q['proto'], q['nodes'], rel, q['keyspace_scenario'], q['prepare_answer'], tuple(map(str, q['execute_answers'])))))
+            ctx.case(repr((q['proto'], q['nodes'], rel, q['keyspace_scenario'], q['prepare_answer'], tuple(map(str, q['execute_answers'])),
+                           q.get('statement_object'))))
+            if q.get('statement_object') and q['statement_object'] != 'cached':
+                ctx.count("statement_object_" + q['statement_object'])
+                if not q['statement_object_in_cluster_cache']:
+                    ctx.count("executed_statement_not_the_object_in_the_cluster_cache")
             ctx.count("frames_compared", len(q['node_trace']))
             ctx.count("reprepares_observed", sum(1 for f in q['node_trace'] if f[0] == 'PREPARE'))
             ctx.count("executes_resent_after_reprepare", max(0, sum(1 for f in q['node_trace'] if f[0] == 'EXECUTE') - 1))
@@ -548,4 +576,4 @@ def run(ctx):
     ctx.floor_counters = {"histories": 150, "reprepares_observed": 100, "executes_resent_after_reprepare": 40, "outcome_mismatch": 15,
                           "outcome_ok": 20, "outcome_prepare-error": 10, "outcome_timeout": 5, "outcome_valueerror": 5, "outcome_nohost": 3,
                           "histories_on_keyspace_carrying_protocol": 20, "keyspace_scenario_param": 3,
-                          "late_prepare_answer_histories_judged": 20}
+                          "late_prepare_answer_histories_judged": 20, "executed_statement_not_the_object_in_the_cluster_cache": 30}
